@@ -156,6 +156,64 @@ def gen_conditions(ck):
         yield tree(3 if ck.quick else 4)
 
 
+SEARCH_VALUES = [True, False, None, 0, 1, "x", "True story", "ab", [1], {"a": 1}]
+
+
+def search_condition(toks, rng):
+    """A condition whose serialisation disagrees with the model: look for data on which the ORIGINAL and the RE-PARSED
+    template render differently (operands replaced by variables, values drawn from a small pool)."""
+    names, out = [], []
+    for t in toks:
+        if isinstance(t, tuple) and t[0] in ("lit", "var"):
+            names.append(f"v{len(names)}")
+            out.append(names[-1])
+        else:
+            out.append(c12.tok_src(t))
+    src = "{% if " + " ".join(out) + " %}1{% else %}2{% endif %}"
+    try:
+        t1 = env().from_string(src)
+        t2 = env().from_string(str(t1))
+    except Exception as e:  # noqa: BLE001
+        return src, None, ("reparse-fails", classify_exc(e))
+    combos = itertools.product(SEARCH_VALUES, repeat=len(names)) if len(names) <= 3 else (
+        tuple(rng.choice(SEARCH_VALUES) for _ in names) for _ in range(1500))
+    for vals in combos:
+        d = dict(zip(names, vals))
+        o1, o2 = outcome(t1, d), outcome(t2, d)
+        if o1 != o2:
+            return src, d, (o1, o2)
+    return src, None, None
+
+
+def search_small_scope():
+    """Exhaustive small scope on the implementation: every two-operator condition with explicit grouping over three
+    variables, every assignment from a small value pool; returns the first (source, data, outcomes) that breaks the round trip."""
+    ops = ["and", "or", "==", "!=", "<", ">=", "contains"]
+    shapes = []
+    for o1 in ops:
+        for o2 in ops:
+            shapes.append(f"(v0 {o2} v1) {o1} v2")
+            shapes.append(f"v0 {o1} (v1 {o2} v2)")
+        shapes += [f"not (v0 {o1} v1)", f"(not v0) {o1} v1", f"v0 {o1} (not v1)", f"not v0 {o1} v1", f"v0 {o1} not v1"]
+    pool = [True, False, None, "x", "True story", 1]
+    for sh in shapes:
+        src = "{% if " + sh + " %}1{% else %}2{% endif %}"
+        try:
+            t1 = env().from_string(src)
+        except Exception:  # noqa: BLE001
+            continue
+        try:
+            t2 = env().from_string(str(t1))
+        except Exception as e:  # noqa: BLE001
+            return src, {}, ("reparse-fails", classify_exc(e))
+        for vals in itertools.product(pool, repeat=3):
+            d = dict(zip(("v0", "v1", "v2"), vals))
+            o1_, o2_ = outcome(t1, d), outcome(t2, d)
+            if o1_ != o2_:
+                return src, d, (o1_, o2_)
+    return None, None, None
+
+
 # ------------------------------------------------------------------ layer B: string literals
 STR_ALPHABET = ["a", " ", "'", '"', "\\", "\n", "{", "%", "}", "n", "é"]
 
@@ -219,10 +277,12 @@ def gen_trees(ck):
                 secs.append(("else", "", nodes(depth, in_for)))
             body = nodes(depth, in_for)
         elif name == "case":
-            for _ in range(rng.randrange(0, 3)):
-                secs.append(("when", rng.choice(["1", "2, 3", "'X'", "y"]), nodes(depth, in_for)))
-            if rng.random() < 0.5:
-                secs.append(("else", "", nodes(depth, in_for)))
+            # when and else sections in ANY order (an else may come before a later when, and there may be several)
+            for _ in range(rng.randrange(0, 4)):
+                if rng.random() < 0.3:
+                    secs.append(("else", "", nodes(depth, in_for)))
+                else:
+                    secs.append(("when", rng.choice(["1", "2, 3", "'X'", "y"]), nodes(depth, in_for)))
             body = []
         elif name == "for":
             body = nodes(depth, True)
@@ -236,6 +296,10 @@ def gen_trees(ck):
     for name, es in BLOCKS.items():
         for e in es:
             yield [("block", name, e, [] if name == "case" else [("out", "x")], [])]
+    for order in itertools.product(["when1", "when2", "else"], repeat=3):
+        secs = [("else", "", [("text", f"e{i}")]) if o == "else" else ("when", "'X'" if o == "when1" else "1, 'k'", [("text", f"w{i}")]) for i, o in enumerate(order)]
+        yield [("block", "case", "x", [], secs)]
+        yield [("block", "case", "y", [], secs)]
     for name, e in INLINES:
         yield [("inline", name, e)]
         yield [("block", "if", "a", [("inline", name, e)], [("else", "", [("text", "a"), ("inline", name, e)])])]
@@ -438,10 +502,11 @@ def gen_rich(ck):
             return tag("unless " + cond(1)) + nodes(d - 1, in_for) + (tag("else") + nodes(d - 1, in_for) if rng.random() < 0.4 else "") + tag("endunless")
         if r < 0.86:
             s = tag("case " + prim())
-            for _ in range(rng.randrange(1, 3)):
-                s += tag("when " + rng.choice([", ", " or "]).join(prim() for _ in range(rng.randrange(1, 3)))) + nodes(d - 1, in_for)
-            if rng.random() < 0.5:
-                s += tag("else") + nodes(d - 1, in_for)
+            for _ in range(rng.randrange(1, 4)):
+                if rng.random() < 0.25:
+                    s += tag("else") + nodes(d - 1, in_for)
+                else:
+                    s += tag("when " + rng.choice([", ", " or "]).join(prim() for _ in range(rng.randrange(1, 3)))) + nodes(d - 1, in_for)
             return s + tag("endcase")
         if r < 0.93:
             args = "".join(rng.choice(["", " limit:" + rng.choice(["2", "n", "y"]), " offset:" + rng.choice(["1", "continue", "n"]), " reversed"]) for _ in range(2))
@@ -504,6 +569,7 @@ def run(ck: Check) -> None:
 
     # ---- A
     cases, expected, meta = [], [], []
+    cond_meta, searched = [], []
     conds = list(gen_conditions(ck))
     srcs = ["{% if " + c12.expr_src(toks) + " %}1{% else %}2{% endif %}" for toks in conds]
     for toks, src, (r, s) in zip(conds, srcs, batch(srcs)):
@@ -523,12 +589,22 @@ def run(ck: Check) -> None:
         cases.append("{| pc_toks := " + g_list(c12.g_tok(t) for t in toks) + " |}")
         expected.append("Some " + g_list(c12.g_tok(t) for t in ptoks))
         meta.append((src, s))
+        cond_meta.append(toks)
     ck.sample({"template": meta[len(meta) // 2][0], "str": meta[len(meta) // 2][1]})
     mm = ck.coq_mismatches("cond", IMPORTS, "run_print2", "run_print_eqb", "pcase", "option (list tok)", cases, expected, chunk=400)
     ck.traces += len(cases)
     for i in mm[:3]:
         src, s = meta[i]
         model = ck.coq_eval(IMPORTS, [f"run_print2 ({cases[i]})"])[0]
+        vsrc, d, diff = search_condition(cond_meta[i], ck.rng)
+        if diff is None and not searched:
+            searched.append(1)
+            vsrc, d, diff = search_small_scope()
+        if diff is not None:
+            ck.violation("impl-violation", f"condition-roundtrip:{vsrc[:100]}",
+                         f"{vsrc!r} (str() = {str(env().from_string(vsrc))!r}) with data {d!r}: original and re-parsed differ: {diff!r}",
+                         {"type": "roundtrip-data", "template": vsrc, "data": d, "found_from": src, "model": model})
+            continue
         ck.violation("correspondence", "c04-condition-correspondence", f"model CondParen.print2 and str() disagree on {src!r}: str() = {s!r}",
                      {"type": "roundtrip", "template": src, "str": s, "model": model,
                       "broken": "correspondence CondParen.run_print2 ~ BooleanExpression.__str__ (theorems C04_condition_roundtrip, C04_condition_idempotent)"}, no_input=True)
@@ -595,6 +671,14 @@ def run(ck: Check) -> None:
 
 def replay(data) -> int:
     case = data["case"]
+    if case.get("type") == "roundtrip-data":
+        t1 = env().from_string(case["template"])
+        t2 = env().from_string(str(t1))
+        o1, o2 = outcome(t1, case["data"]), outcome(t2, case["data"])
+        print("template:", repr(case["template"]), "str():", repr(str(t1)), "data:", case["data"])
+        print("original:", o1, "re-parsed:", o2)
+        print(("VIOLATION reproduced" if o1 != o2 else "not reproduced") + f" property={data['property']}")
+        return 1 if o1 != o2 else 0
     if case.get("type") != "roundtrip" or "template" not in case:
         print("replay names a proof/correspondence obligation:", case)
         return 1
